@@ -185,56 +185,67 @@ def skipNamePrefix : Nat → LexM Bool
         let _ ← readByte d
         skipNamePrefix f
 
+/-- the `switch next` of `parseNameString` after the prefixes were skipped and `next` was read:
+consumes the NamePath and returns the (possibly reset) `startOffset`, `none` = `return nil, failed` -/
+def parseNamePath (next startOffset : Nat) : LexM (Option Nat) := do
+  if next = 0x00 then
+    return some (← offset)
+  else if next = 0x2e then
+    let endOffset := u32 ((← offset) + amlNameLen * 2)
+    if endOffset > (← pkgEnd) then return none
+    else
+      setOffset d endOffset
+      return some startOffset
+  else if next = 0x2f then
+    match ← readByte d with
+    | none => return none
+    | some segCount =>
+      if segCount = 0 then return none
+      else
+        let endOffset := u32 ((← offset) + amlNameLen * segCount.toNat)
+        if endOffset > (← pkgEnd) then return none
+        else
+          setOffset d endOffset
+          return some startOffset
+  else if (next < 0x41 ∨ next > 0x5a) ∧ next ≠ 0x5f then return none
+  else
+    let endOffset := u32 ((← offset) + (amlNameLen - 1))
+    if endOffset > (← pkgEnd) then return none
+    else
+      setOffset d endOffset
+      return some startOffset
+
 /-- `parseNameString() ([]byte, parseResult)`; on failure Go returns the nil slice -/
 def parseNameString : LexM (Slice × PRes) := do
   let data ← dataPtr d
   let startOffset ← offset
-  if !(← skipNamePrefix d (d.size + 1)) then return ({}, .failed)
-  let next := ((← readByte d).getD 0).toNat
-  let mut startOffset := startOffset
-  if next = 0x00 then
-    startOffset ← offset
-  else if next = 0x2e then
-    let endOffset := u32 ((← offset) + amlNameLen * 2)
-    if endOffset > (← pkgEnd) then return ({}, .failed)
-    setOffset d endOffset
-  else if next = 0x2f then
-    let segCount ← readByte d
-    match segCount with
+  if (← skipNamePrefix d (d.size + 1)) then
+    let next := ((← readByte d).getD 0).toNat
+    match ← parseNamePath d next startOffset with
     | none => return ({}, .failed)
-    | some segCount =>
-      if segCount = 0 then return ({}, .failed)
-      let endOffset := u32 ((← offset) + amlNameLen * segCount.toNat)
-      if endOffset > (← pkgEnd) then return ({}, .failed)
-      setOffset d endOffset
-  else
-    if (next < 0x41 ∨ next > 0x5a) ∧ next ≠ 0x5f then return ({}, .failed)
-    let endOffset := u32 ((← offset) + (amlNameLen - 1))
-    if endOffset > (← pkgEnd) then return ({}, .failed)
-    setOffset d endOffset
-  let len := u32 ((← offset) + 4294967296 - startOffset)
-  return ({ data := data, len := len }, .ok)
+    | some startOffset =>
+      return ({ data := data, len := u32 ((← offset) + 4294967296 - startOffset) }, .ok)
+  else return ({}, .failed)
+
+/-- the tail of `nextOpcode`: "if this is not a valid opcode, rewind the stream" -/
+def checkOpcode (op opLen : Nat) : LexM (Nat × PRes) := do
+  if pOpcodeTableIndex op false = badOpcode then
+    setOffset d (u32 ((← offset) + 4294967296 - opLen))
+    return (0xffff, .failed)
+  else return (op, .ok)
 
 /-- `nextOpcode() (uint16, parseResult)` -/
 def nextOpcode : LexM (Nat × PRes) := do
   match ← readByte d with
   | none => return (0xffff, .failed)
   | some next =>
-    let mut op := next.toNat
-    let mut opLen := 1
     if next.toNat = extOpPrefix then
-      op := 0xff
       match ← readByte d with
       | none =>
         let _ ← unreadByte
         return (0xffff, .failed)
-      | some next2 =>
-        opLen := 2
-        op := op + next2.toNat
-    if pOpcodeTableIndex op false = badOpcode then
-      setOffset d (u32 ((← offset) + 4294967296 - opLen))
-      return (0xffff, .failed)
-    return (op, .ok)
+      | some next2 => checkOpcode d (0xff + next2.toNat) 2
+    else checkOpcode d next.toNat 1
 
 /-- `peekNextOpcode()` -/
 def peekNextOpcode : LexM (Nat × PRes) := do
